@@ -143,7 +143,9 @@ _compression_write(xmpp_conn_t *conn, const void *buff, size_t len, int flush)
             return ret;
         }
         ret = comp->compression.stream.next_in - (Bytef *)buff;
-    } while (comp->compression.stream.next_in < (Bytef *)buff_end);
+        /* a flush is complete only when deflate returns with room left */
+    } while (comp->compression.stream.next_in < (Bytef *)buff_end ||
+             (flush && comp->compression.stream.avail_out == 0));
     if (flush) {
         ret = _try_compressed_write_to_network(conn, 1);
         if (ret < 0) {
